@@ -192,14 +192,14 @@ def cmp_cases(cv, rng, pairs, seeds):
     return cases
 
 
-def offcurve_cases(cv, rng, count, op="ep2_on_curve"):
+def offcurve_cases(cv, rng, count, op="ep2_on_curve", systems=(BASIC, PROJC, JACOB)):
     """ep2_on_curve must say no for points off the curve, in every representation."""
     cases = []
     for _ in range(count):
         xs = [rng.randrange(cv.p) for _ in range(4)]
         if rng.random() < 0.3:
             xs[rng.randrange(4)] = 0
-        s = rng.choice([BASIC, PROJC, JACOB])
+        s = rng.choice(list(systems))
         cases.append("%s %s 0 xy%x,%x,%x,%x%s" % (op, cv.spec, xs[0], xs[1], xs[2], xs[3], rep_suffix(cv, s, rng)))
     return cases
 
